@@ -66,6 +66,23 @@ fn scenario(name: &str) -> Option<String> {
                 if get(&evs[0], "level") != Some("\"info\"") || get(&evs[0], "msg") != Some("\"m\"") || get(&evs[0], "z") != Some("1") { return fail(format!("expected=values kept actual={:?}", evs[0])); }
                 None
             }
+            "msgtag" => {
+                // the caller passes a tag that is itself named `msg` (and the thread has one too): the message comes first, then the
+                // caller's, then the thread's -- for each of the three front functions
+                add_thread_local_log_tag("msg", "of the thread");
+                for which in 0..3 {
+                    let tags = (tag("a", 1u8), tag("msg", "the cause"), tag("path", "/p"));
+                    let r = match which { 0 => servlin::log::error("the message", tags), 1 => servlin::log::info("the message", tags), _ => servlin::log::debug("the message", tags) };
+                    r.ok()?;
+                    let evs = drain(&rx);
+                    if evs.len() != 1 { return fail(format!("expected=1 event actual={}", evs.len())); }
+                    let msgs: Vec<&str> = evs[0].iter().filter(|x| x.0 == "msg").map(|x| x.1.as_str()).collect();
+                    if msgs != ["\"the message\"", "\"the cause\"", "\"of the thread\""] { return fail(format!("expected=msg members [the message, the cause, of the thread] actual={msgs:?}")); }
+                    let want = ["level", "msg", "msg", "msg", "path", "a"];
+                    if keys(&evs[0]) != want { return fail(format!("expected=keys {want:?} actual={:?}", keys(&evs[0]))); }
+                }
+                None
+            }
             "collision" => {
                 // a tag passed to the call and a tag of the thread share a name (and the thread has one name twice): the
                 // event carries all of them, none is dropped or merged
@@ -215,7 +232,7 @@ fn behind() -> Option<String> {
 fn main() {
     std::panic::set_hook(Box::new(|_| {}));
     let args: Vec<String> = std::env::args().collect();
-    let all = ["order", "collision", "many", "levels", "isolation", "response-ok", "response-err", "wrapper"];
+    let all = ["order", "msgtag", "collision", "many", "levels", "isolation", "response-ok", "response-err", "wrapper"];
     let run = |n: &str| -> Option<String> { if n == "stopped" { stopped() } else if n == "behind" { behind() } else { match std::panic::catch_unwind(|| scenario(n)) { Ok(v) => v, Err(_) => Some(format!("log scenario={n} expected=no-panic actual=panic")) } } };
     if args.len() >= 3 && args[1] == "replay" {
         let w = args[2..].join(" ");
